@@ -16,7 +16,7 @@ LEVEL = "exploration"
 ENGINE = "sansio"
 BUDGET = {"quick": (260, 22), "thorough": (12000, 240)}
 WORKERS = {"quick": 4, "thorough": 16}
-REQUIRED = ["outcome_compared", "pipeline_order", "streaming_cases"]
+REQUIRED = ["outcome_compared", "pipeline_order", "streaming_cases", "sequential_unsolicited_cases"]
 TECHNIQUE = "runtime monitoring: metamorphic re-execution under different segmentations/schedules, outcome compared via independent parser"
 RULE = (
     "case = spec of 1-4 pipelined generated requests (valid and hostile) + deterministic responses/edits; executed under baseline + "
@@ -26,6 +26,8 @@ RULE = (
 ASSUMPTIONS = [
     "schedules are TCP-legal: per-connection byte order preserved, a response is sent only after its request was completely written upstream",
     "client EOF only after all traffic (an early FIN is a different input, not a different segmentation)",
+    "unsolicited origin bytes behind a complete response are only generated for a sequential client (request k sent after the answer to k-1 "
+    "arrived and the proxy is quiescent): with a pipelining client their arrival races with the forwarding of the next request, which no proxy can decide",
     "streaming leg (30% of cases, well-formed traffic, body streaming by option or addon, origin may answer as soon as it has the request head): "
     "request-side and response-side hooks of one flow legitimately interleave by arrival order, so hook order is compared per direction",
 ]
@@ -80,6 +82,12 @@ def run(ctx):
     for i in ctx.cases():
         r = ctx.rng
         spec = h1case.build_spec(r, allow_1xx=False, streaming_p=0.3)
+        if "streaming" not in spec and len(spec["reqs"]) >= 2 and r.random() < 0.3:
+            # sequential client + origin that writes unsolicited bytes behind a complete response: whether those bytes share a
+            # segment with the end of the response must not matter (they always arrive before the next request is sent)
+            spec["sequential"] = True
+            spec["unsolicited_p"] = 0.6
+            ctx.count("sequential_unsolicited_cases")
         stream = b"".join(q["raw"] for q in spec["reqs"])
 
         def ex(cseg, sseg, sched):
